@@ -221,6 +221,21 @@ def eval_merge_pair(l, r, st):
                 st.violation(kind, {'op': 'merge', 'inputs': [space.to_json(l), space.to_json(r)]},
                              dict(detail, inputs=[str(sl), str(sr)], result=str(res)), dict(feat, arity=2))
             check_merge([sl, sr], res, viol, by_name=aligned)
+            if al is not E or ar is not E:
+                # the same rules when an input is a plain inspect.Signature carrying the annotations
+                import warnings
+                with warnings.catch_warnings():
+                    warnings.simplefilter('ignore')
+                    for pl_, pr_, how in ((alg.downgrade(sl), alg.downgrade(sr), 'both plain'), (sl, alg.downgrade(sr), 'right plain')):
+                        status2, res2 = alg.outcome(S.merge, pl_, pr_)
+                        st.inc('transitions')
+                        if status2 != 'ok':
+                            continue
+
+                        def viol2(kind, detail, feat, res2=res2, how=how):
+                            st.violation(kind, {'op': 'merge', 'inputs': [space.to_json(l), space.to_json(r)]},
+                                         dict(detail, inputs=[str(sl), str(sr)], plain_inputs=how, result=str(res2)), dict(feat, arity=2, plain=how))
+                        check_merge([sl, sr], res2, viol2, by_name=aligned)
 
 
 def merge_pairs_shard(tier, sh):
